@@ -89,6 +89,7 @@ def step (a : Acc) (toks : List String) : Acc :=
       | some d => { a with args := a.args ++ [d] }
       | none => a.fail ("bad arg " ++ " ".intercalate rest)
   | ["call"] => { finishCall a with cur := some {} }
+  | ["mutate", _kind] => finishCall a     -- the caller mutated a RETURNED list / dict: no state in the model
   | "pf" :: rest =>
       match a.cur with
       | some c => (match c.otab.addParse? rest with
@@ -138,7 +139,7 @@ def step (a : Acc) (toks : List String) : Acc :=
 def finish (a0 : Acc) : Bool × Bool × List String :=
   let a := finishCall a0
   if !a.bad.isEmpty then (false, false, a.bad)
-  else if a.ncalls == 0 then (false, false, ["no call"])
+  else if a.ncalls == 0 then (true, true, [])      -- a history without calls (only produced by shrinking) shows nothing
   else (a.notes.isEmpty, a.jnotes.isEmpty, a.notes ++ a.jnotes)
 
 def main : IO UInt32 := do
